@@ -31,8 +31,9 @@ func (o cop) String() string {
 }
 
 type scen struct {
-	capa  int
-	progs [][]cop
+	capa   int
+	progs  [][]cop
+	prefix []cop // executed sequentially by the main thread before the workers start (non-initial states)
 }
 
 func (s scen) String() string {
@@ -44,7 +45,14 @@ func (s scen) String() string {
 		}
 		ps = append(ps, strings.Join(os, ";"))
 	}
-	return fmt.Sprintf("cap=%d %s", s.capa, strings.Join(ps, " || "))
+	pre := ""
+	for _, o := range s.prefix {
+		pre += o.String() + ";"
+	}
+	if pre != "" {
+		pre = " prefix=" + pre
+	}
+	return fmt.Sprintf("cap=%d%s %s", s.capa, pre, strings.Join(ps, " || "))
 }
 
 type kv struct{ k, v int }
@@ -129,42 +137,65 @@ func job(sc scen, cfg vsched.Config) sdrv.Job {
 		if err != nil {
 			panic(err)
 		}
+		everResident := map[string]bool{}
+		// invariant at every harness point (no thread is inside the cache mutex there): a value that was resident
+		// and is not resident any more has been passed to the delete callback - leaving the cache and the callback
+		// are one atomic step
+		leftWithoutDelete := func(where string) {
+			res := map[string]bool{}
+			for _, v := range lru.VerifValues(c.ECache) {
+				res[v] = true
+				everResident[v] = true
+			}
+			for v := range createdOK {
+				k := fmt.Sprint(v)
+				if everResident[k] && !res[k] && deleted[v] == 0 {
+					obs.fail("left-without-delete", "%s: value v%d was resident, is not resident any more, and has not been passed to the delete callback (yet): leaving the cache and the callback are not atomic", where, v)
+				}
+			}
+		}
 		done := make([]bool, len(sc.progs))
+		runOps := func(t int, prog []cop) {
+			for _, o := range prog {
+				leftWithoutDelete(fmt.Sprintf("t%d before %v", t, o))
+				tick++
+				h := hop{thread: t, op: o, call: tick}
+				// delete callbacks run under the cache mutex on the calling thread: attribute them to this call
+				var ev []kv
+				evictOf[vsched.ThreadID()] = &ev
+				switch o.K {
+				case 'G':
+					createdHere := false
+					v, err := getOrCreate(c, o.Key, &createdHere)
+					h.val, h.failed, h.created = v, err != nil, createdHere
+				case 'R':
+					h.removed = c.Remove(o.Key)
+				case 'C':
+					h.count = c.Clear()
+				}
+				evictOf[vsched.ThreadID()] = nil
+				h.evicted = ev
+				tick++
+				h.ret = tick
+				obs.hist = append(obs.hist, h)
+				vsched.Note("%v", h)
+				nodes, _, _, length, problems, _, _ := lru.VerifItems(c.ECache)
+				_ = nodes
+				if length > sc.capa {
+					obs.fail("capacity", "the cache holds %d values, capacity is %d", length, sc.capa)
+				}
+				if len(problems) > 0 {
+					obs.fail("structure", "inner map: %v", problems)
+				}
+				leftWithoutDelete(fmt.Sprintf("t%d after %v", t, o))
+			}
+		}
+		runOps(8, sc.prefix)
 		for t, prog := range sc.progs {
 			t, prog := t, prog
 			vsched.GoNamed(fmt.Sprintf("t%d", t), func() {
 				defer func() { done[t] = true }()
-				for _, o := range prog {
-					tick++
-					h := hop{thread: t, op: o, call: tick}
-					// delete callbacks run under the cache mutex on the calling thread: attribute them to this call
-					var ev []kv
-					evictOf[vsched.ThreadID()] = &ev
-					switch o.K {
-					case 'G':
-						createdHere := false
-						v, err := getOrCreate(c, o.Key, &createdHere)
-						h.val, h.failed, h.created = v, err != nil, createdHere
-					case 'R':
-						h.removed = c.Remove(o.Key)
-					case 'C':
-						h.count = c.Clear()
-					}
-					evictOf[vsched.ThreadID()] = nil
-					h.evicted = ev
-					tick++
-					h.ret = tick
-					obs.hist = append(obs.hist, h)
-					vsched.Note("%v", h)
-					nodes, _, _, length, problems, _, _ := lru.VerifItems(c.ECache)
-					_ = nodes
-					if length > sc.capa {
-						obs.fail("capacity", "the cache holds %d values, capacity is %d", length, sc.capa)
-					}
-					if len(problems) > 0 {
-						obs.fail("structure", "inner map: %v", problems)
-					}
-				}
+				runOps(t, prog)
 			})
 		}
 		vsched.WaitFor("threads", func() bool {
@@ -355,7 +386,7 @@ func progsOf(alpha []cop, k int) [][]cop {
 
 func main() {
 	run := ev.Parse("C09", "model_checking")
-	fine := vsched.Mask(vsched.KLock, vsched.KChan, vsched.KEnv, vsched.KStep)
+	fine := vsched.Mask(vsched.KLock, vsched.KUnlock, vsched.KChan, vsched.KEnv, vsched.KStep) // KUnlock: the cache may call back into the harness right after releasing its mutex
 	alpha := []cop{{'G', 0}, {'G', 1}, {'R', 0}, {'C', 0}}
 	var jobs []sdrv.Job
 	add := func(threads int, progs [][]cop, caps []int, p int) {
@@ -363,7 +394,7 @@ func main() {
 		rec = func(cur [][]cop) {
 			if len(cur) == threads {
 				for _, c := range caps {
-					jobs = append(jobs, job(scen{c, append([][]cop{}, cur...)}, vsched.Config{P: p, Preempt: fine, MaxSteps: 5000}))
+					jobs = append(jobs, job(scen{c, append([][]cop{}, cur...), nil}, vsched.Config{P: p, Preempt: fine, MaxSteps: 5000}))
 				}
 				return
 			}
@@ -382,6 +413,11 @@ func main() {
 		add(2, progsOf(alpha[:3], 2), []int{1}, 3)
 		small := append(append([][]cop{}, progsOf(alpha[:3], 1)...), progsOf(alpha[:3], 2)...)
 		add(3, small, []int{1}, 1)
+		// from a non-initial state: capacity 3, a hit during fill-up (recency must already count), then concurrent misses
+		pre := []cop{{'G', 0}, {'G', 1}, {'G', 0}}
+		for _, ps := range [][][]cop{{{{'G', 2}}, {{'G', 3}}}, {{{'G', 2}, {'G', 3}}, {{'R', 0}}}, {{{'G', 2}, {'G', 3}}, {{'G', 1}}}, {{{'G', 2}}, {{'G', 3}}, {{'G', 0}}}} {
+			jobs = append(jobs, job(scen{3, ps, pre}, vsched.Config{P: 2, Preempt: fine, MaxSteps: 5000}))
+		}
 	} else {
 		alpha3 := append(append([]cop{}, alpha...), cop{'G', 2}, cop{'R', 1})
 		add(2, append(progsOf(alpha3, 1), progsOf(alpha3, 2)...), []int{1, 2, 3}, 3)
